@@ -80,10 +80,12 @@ func (txn *Txn) rangeWrite(fn func(commitID uint64, chunk commit.Chunk, fill bit
 	txn.dirty.Range(func(x uint32) {
 		chunk := commit.Chunk(x)
 		verifYield("w.begin", uint32(chunk))
-		commitID := commit.Next()
-		verifYield("w.id", uint32(chunk))
 		lock.Lock(uint(chunk))
 		verifYield("w.latched", uint32(chunk))
+
+		// The ID is drawn under the latch, so that for one chunk the IDs grow in apply order
+		commitID := commit.Next()
+		verifYield("w.id", uint32(chunk))
 
 		// Compute the fill and set the last commit ID
 		txn.owner.lock.RLock()
